@@ -69,6 +69,33 @@ def names_in(node: ast.AST) -> set[str]:
     return {n.id for n in ast.walk(node) if isinstance(n, ast.Name)}
 
 
+def free_names(node: ast.AST) -> set[str]:
+    """Names read by the expression, without the variables its own comprehensions / lambdas bind."""
+    if isinstance(node, (ast.ListComp, ast.SetComp, ast.GeneratorExp, ast.DictComp)):
+        bound = set()
+        for g in node.generators:
+            bound |= {n.id for n in ast.walk(g.target) if isinstance(n, ast.Name)}
+        inner = set()
+        parts = [node.key, node.value] if isinstance(node, ast.DictComp) else [node.elt]
+        for i, g in enumerate(node.generators):
+            parts.extend(g.ifs)
+            if i:
+                parts.append(g.iter)
+        for p in parts:
+            inner |= free_names(p)
+        return (inner - bound) | free_names(node.generators[0].iter)
+    if isinstance(node, ast.Lambda):
+        a = node.args
+        bound = {x.arg for x in a.posonlyargs + a.args + a.kwonlyargs}
+        return free_names(node.body) - bound
+    if isinstance(node, ast.Name):
+        return {node.id}
+    out = set()
+    for c in ast.iter_child_nodes(node):
+        out |= free_names(c)
+    return out
+
+
 def unparse(node: ast.AST) -> str:
     try:
         return ast.unparse(node)
@@ -93,7 +120,19 @@ def walk_no_nested(node: ast.AST) -> Iterator[ast.AST]:
             continue
         first = False
         yield n
-        todo.extend(ast.iter_child_nodes(n))
+        todo.extend(reversed(list(ast.iter_child_nodes(n))))  # depth-first, document order
+
+
+def doc_sorted(root: ast.AST, nodes) -> list:
+    """`nodes` in document order of `root` (line numbers are not an order once helpers are expanded in place)."""
+    idx = {id(n): i for i, n in enumerate(_preorder(root))}
+    return sorted(nodes, key=lambda n: idx.get(id(n), 1 << 30))
+
+
+def _preorder(node):
+    yield node
+    for c in ast.iter_child_nodes(node):
+        yield from _preorder(c)
 
 
 def stmts_no_nested(body: Iterable[ast.stmt]) -> Iterator[ast.stmt]:
@@ -172,6 +211,15 @@ class Func:
     node: ast.FunctionDef
     cls: ClassInfo | None = None
     kind: str = "func"  # func | getter | setter
+    raw: ast.FunctionDef | None = None  # the definition as written; `node` has private helpers expanded (sa/inline.py)
+
+    def __post_init__(self):
+        if self.raw is None:
+            self.raw = self.node
+        prog = getattr(self.module, "program", None)
+        inl = getattr(prog, "inliner", None)
+        if inl is not None:
+            self.node = inl.inlined(self)
 
     @property
     def key(self) -> str:
@@ -179,7 +227,7 @@ class Func:
 
     def where(self, node: ast.AST | None = None) -> str:
         n = node if node is not None and hasattr(node, "lineno") else self.node
-        return f"{self.module.relpath}:{n.lineno}"
+        return f"{getattr(n, '_relpath', self.module.relpath)}:{n.lineno}"
 
     def params(self) -> list[str]:
         a = self.node.args
@@ -268,7 +316,7 @@ class Module:
 class Program:
     """All modules of the package under `root`, with name / class / MRO resolution."""
 
-    def __init__(self, root: str = REPO, overlay: dict[str, str] | None = None):
+    def __init__(self, root: str = REPO, overlay: dict[str, str] | None = None, inline: bool = True):
         self.root = root
         self.overlay = overlay or {}
         self.modules: dict[str, Module] = {}
@@ -276,6 +324,13 @@ class Program:
         self._classes: dict[str, list[ClassInfo]] = {}
         self._index_classes()
         self._mro_cache: dict[str, list[ClassInfo]] = {}
+        self.inliner = None
+        for m in self.modules.values():
+            m.program = self
+        if inline:
+            from .inline import Inliner
+
+            self.inliner = Inliner(self)
 
     # -- loading ---------------------------------------------------------
     def _load(self):
@@ -423,7 +478,14 @@ class Program:
         return Func(owner.module, f"{owner.name}.{name}", node, owner, kind)
 
     def functions(self, modules: Iterable[str] | None = None) -> Iterator[Func]:
-        """Every function / method / property accessor of the given modules."""
+        """Every function / method / property accessor of the given modules.  New private helpers whose every
+        call site was expanded in place (sa/inline.py) are not listed: their statements are in their callers."""
+        gone = self.inliner.dissolved() if self.inliner is not None else ()
+        for f in self._all_functions(modules):
+            if f.key not in gone:
+                yield f
+
+    def _all_functions(self, modules: Iterable[str] | None = None) -> Iterator[Func]:
         for mn, m in self.modules.items():
             if modules is not None and mn not in modules:
                 continue
